@@ -147,7 +147,38 @@ func checkDispatch(c *Ctx, r *Rec, cr *collRoles) {
 				}
 				a0 := resolveInitIn(info, cc, call.Args[0])
 				a1 := resolveInitIn(info, cc, call.Args[1])
+				// the class of values must be preserved from the reflect accessor to the leaf:
+				// Int() -> signed, Uint() -> unsigned, Float() -> float, Complex() -> complex, ...
+				classOf := func(t types.Type) string {
+					b, ok := t.Underlying().(*types.Basic)
+					if !ok {
+						return "?"
+					}
+					switch {
+					case b.Info()&types.IsBoolean != 0:
+						return "boolean"
+					case b.Info()&types.IsUnsigned != 0:
+						return "unsigned"
+					case b.Info()&types.IsInteger != 0:
+						return "signed"
+					case b.Info()&types.IsFloat != 0:
+						return "float"
+					case b.Info()&types.IsComplex != 0:
+						return "complex"
+					case b.Info()&types.IsString != 0:
+						return "string"
+					}
+					return "?"
+				}
+				lossy := ""
+				if src := info.Types[a0].Type; src != nil {
+					if dst := info.Types[call.Args[0]].Type; dst != nil && classOf(src) != classOf(dst) {
+						lossy = fmt.Sprintf("the operands are extracted as %s values (%s) but handed to the leaf as %s values: the conversion is not exact for all values (integers above 2^53 collapse as float64), so distinct values rank Equal while CompareValues tells them apart", classOf(src), exprStr(a0), classOf(dst))
+					}
+				}
 				switch {
+				case lossy != "":
+					bad = lossy
 				case !mir.mirrorEq(a0, a1):
 					bad = fmt.Sprintf("the operands are extracted differently: %s vs %s", exprStr(a0), exprStr(a1))
 				case mir.side(a0) != 0:
